@@ -151,9 +151,16 @@ def make_s_triples(params, part, nparts):
 POOL = ['', 'a', 'b', 'ab', 'a.b', 'é', 'B', 'a\U0001f600']
 
 
+def _fresh(s):
+    t = ''.join([c for c in s])
+    return t
+
+
 def run_concrete_pair(case):
     (i1, j1, i2, j2, k1, k2) = case
-    n1, m1, n2, m2 = POOL[i1], POOL[j1], POOL[i2], POOL[j2]
+    # fresh string objects: equal names/modules of the two operands must not be the *same* object
+    # (identifier-like literals are interned; names built at run time are not)
+    n1, m1, n2, m2 = _fresh(POOL[i1]), _fresh(POOL[j1]), _fresh(POOL[i2]), _fresh(POOL[j2])
     a, b = _mk(k1, n1, m1), _mk(k2, n2, m2)
     ka, kb = _key(k1, n1, m1), _key(k2, n2, m2)
     check_pair(a, b, ka, kb, (k1, k2), hashes=True)
